@@ -641,6 +641,22 @@ func Tag.AppendInt(n: int) => *Tag {
 	return this
 }
 
+// a function returning a closure that captures its parameters
+func mkAdder2(pre: string, acc: []int) => func(s: string) => string {
+	return func(s: string) => string {
+		acc = append(acc, len(s))
+		return pre + s + itoa(len(acc))
+	}
+}
+
+func lenOf(b: []byte) => int { return len(b) }
+func upper1(s: string) => string {
+	if len(s) == 0 {
+		return s
+	}
+	return s[:1] + "U"
+}
+
 func catAny(xs: ...interface{}) => string {
 	r := ""
 	for _, x := range xs {
@@ -1196,6 +1212,9 @@ func (g *gen) formOps4() {
 	g.add("method value bound to an interface receiver, called", fmt.Sprintf("d: Describer = &Base{note: %s, id: c}\nf := d.Describe\nr := f()\nfor i := 0; i < 1+b%%3; i++ {\nr += f()\n}\ncl: Closer = &Res{name: %s, data: %s}\ng := cl.Text\nh := cl.Rows\nr += g(b)\nrows := h()\nunused := d.Describe\n_ = unused\n"+clip("r")+"%s = r\n%s = rows\nreturn hStr(r) + hSI(rows)", str("b"), str("c"), si("c"), str("a"), si("a")))
 	g.add("generic function alternatives chosen by argument type", fmt.Sprintf("x := %s\nr := joinAny(x, %s) + joinAny(x, %s) + joinAny(x, &Node{name: itoa(c)})\nnn: *Node\nr += joinAny(r, nn)\n"+clip("r")+"%s = r\nreturn hStr(r)", str("b"), str("c"), si("c"), str("a")))
 	g.add("operator on struct values with reference fields, chained generic methods", fmt.Sprintf("p := Tag{s: %s, v: %s}\nq := Tag{s: itoa(b), v: []int{c}}\nsum := p + q\nsum2 := sum + p\nt := &Tag{s: \"t\"}\nt.Append(sum.s).Append(b).Append(\"x\").Append(c)\nr := sum2.s + t.s\nw := append(sum2.v, t.v...)\nif len(w) > 40 {\nw = w[:4]\n}\n"+clip("r")+"%s = r\n%s = w\nreturn hStr(r) + hSI(w)", str("b"), si("c"), str("a"), si("a")))
+	g.add("function returning a closure over its parameters", fmt.Sprintf("f := mkAdder2(%s, %s)\ng2 := mkAdder2(itoa(b), nil)\nr := f(\"a\") + g2(f(\"b\")) + f(itoa(c))\n"+clip("r")+"%s = r\nreturn hStr(r)", str("b"), si("c"), str("a")))
+	g.add("conversion temporaries passed directly as arguments", fmt.Sprintf("x := %s + \"tmp\"\nn := lenOf([]byte(x)) + lenOf([]byte(x + itoa(b)))\nr := upper1(string([]byte(x)[1:])) + upper1(string([]byte(%s)))\nfor i := 0; i < 1+c%%3; i++ {\nn += lenOf([]byte(itoa(i) + r))\n}\n"+clip("r")+"%s = r\nreturn hStr(r) + i64(n)", str("b"), str("c"), str("a")))
+	g.add("append to a slice field of a slice element through index expressions", fmt.Sprintf("ps := []Pair{{a: b, s: %s}, {a: c, s: \"q\"}}\nfor i := 0; i < 2+c%%3; i++ {\nps[i%%2].v = append(ps[i%%2].v, b+i)\nps[(i+1)%%2].s += itoa(i)\n}\nqs := ps\nqs[0].v = append(qs[0].v, c)\nps = append(ps, qs[1])\nr := ps[0].s + ps[2].s\n"+clip("r")+"%s = r\n%s = ps[0].v\nreturn hStr(r) + hSI(ps[0].v) + hSI(qs[1].v) + i64(len(ps))", str("b"), str("a"), si("a")))
 	g.add("string to runes and back", fmt.Sprintf("rs := []rune(%s + \"世a\")\nfor i := range rs {\nif i%%2 == c%%2 {\nrs[i] = rune('b' + (b+i)%%20)\n}\n}\nu := string(rs[1:]) + string(rs[0]) + string(rune(0x4e16+b%%8))\n"+clip("u")+"%s = u\nreturn hStr(u) + i64(len(rs))", str("b"), str("a")))
 	g.add("local array of strings copied by value", fmt.Sprintf("arr: [3]string\narr[b%%3] = %s\narr[c%%3] = %s + \"k\"\nt := arr\nt[0] = t[1] + t[2]\nr := arr[0] + \"|\" + t[0]\n"+clip("r")+"%s = r\nreturn hStr(r)", str("b"), str("c"), str("a")))
 	g.add("slice of slices of strings, inner append", fmt.Sprintf("rows := [][]string{}\nfor i := 0; i < 1+c%%3; i++ {\nrows = append(rows, []string{%s})\nrows[i] = append(rows[i], itoa(i+b))\nrows[0] = append(rows[0], rows[i][0])\n}\nr := \"\"\nfor _, row := range rows {\nfor _, x := range row {\nif len(r) < 120 {\nr += x\n}\n}\n}\n%s = r\nreturn hStr(r) + i64(len(rows[0]))", str("b"), str("a")))
